@@ -92,6 +92,11 @@ func runReq(w *vf.Writer, nrand int) {
 		cases = append(cases, reqCase{Kind: "recover", Status: s})
 	}
 
+	// the handler has already sent its header (and part of the body) when it panics: the status is on the wire
+	for _, s := range []int{200, 206, 404} {
+		cases = append(cases, reqCase{Kind: "recover", Status: s, Panic: "after-write"})
+	}
+
 	for i := 0; i < nrand; i++ {
 		r := root.Fork(uint64(i))
 		c := reqCase{Kind: "extract"}
@@ -161,6 +166,13 @@ func runReq(w *vf.Writer, nrand int) {
 					extractors.CompositeExtractStrategy{}.GetAuthData(nil) //nolint:errcheck
 				})
 				hCoq = "(Panicked PkOther)"
+			case c.Panic == "after-write":
+				h = http.HandlerFunc(func(rw http.ResponseWriter, _ *http.Request) {
+					rw.WriteHeader(c.Status)
+					rw.Write([]byte("partial")) //nolint:errcheck
+					panic("boom after the header was written")
+				})
+				hCoq = "(PanickedAfter " + vf.CoqZ(int64(c.Status)) + ")"
 			case c.Panic == "runtime":
 				h = http.HandlerFunc(func(http.ResponseWriter, *http.Request) {
 					var l []int
